@@ -74,6 +74,19 @@ def run_harness(args):
             E.branch_timeout_ms = 2000
         H.install_common_stubs(E)
         results, errors = E.explore(h.fn, max_paths=h.max_paths)
+        if E.lazy_attrs and any(r.status != 'proved' and not r.name.startswith('cover:') for r in results):
+            # attributes unknown to the contract were given arbitrary values and something did not prove: fall back to their
+            # initial values (a violation from there is reported; otherwise the harness is marked out of date = undecided)
+            lazy = sorted(E.lazy_attrs)
+            E2 = ENG.Engine(backend=h.backend, repo_root=repo_root)
+            E2.prove_timeout_ms, E2.branch_timeout_ms, E2.harness_budget_s = E.prove_timeout_ms, E.branch_timeout_ms, E.harness_budget_s
+            E2.lazy_mode = 'initial'
+            H.install_common_stubs(E2)
+            results, errors = E2.explore(h.fn, max_paths=h.max_paths)
+            E2.stats['solver_time'] += E.stats.get('solver_time', 0.0)
+            E = E2
+        elif E.lazy_attrs:
+            out['lazy_attributes'] = sorted(E.lazy_attrs)
         for r in results:
             d = r.to_json()
             if r.status == 'unknown' and r.smt2 and tier != 'mutation':
